@@ -1210,6 +1210,7 @@ func runC03(c *core.Ctx) core.Meta {
 	checkLaneIndexBounded(c, []string{emuPkg, cdna3Pkg})
 	checkInlineIntegerReadWhole(c, []string{emuPkg, wfPkg})
 	checkNoneFoundValue(c, handlers)
+	checkI24SourcesSignExtended(c, handlers)
 	// R03.47: the value a load hands to a lane is built from that lane's bytes only (c06scratch.go, R06.scratch)
 	checkScratchPerLane(c, "R03.47", []string{emuPkg, cdna3Pkg})
 	checkImmediateArithmeticWide(c, "R03.44", []string{emuPkg, cdna3Pkg}, 6, "A branch handler that multiplies in int16 sends far branches to the wrong address")
